@@ -102,6 +102,41 @@ func genStreams(c *vf.Ctx) []stream {
 			add("wellformed-unauthorized", fmt.Sprintf("well-formed %s command, %s", pl.name, cr.name), 2, frame(cmd), 250, 1)
 		}
 	}
+	// hollow payloads: the right payload message for the command type, but with
+	// none of its fields set (nil inner Request, no data, empty ids), presented by
+	// an authorized sender and by an anonymous one: the handlers must cope with
+	// every field being absent
+	admin := &cproto.Credentials{Username: "admin", Password: "secret"}
+	hollow := []struct {
+		name string
+		cmd  *cproto.Command
+	}{
+		{"EXECUTE", &cproto.Command{Type: cproto.Command_COMMAND_TYPE_EXECUTE, Request: &cproto.Command_ExecuteRequest{ExecuteRequest: &cmdproto.ExecuteRequest{}}}},
+		{"QUERY", &cproto.Command{Type: cproto.Command_COMMAND_TYPE_QUERY, Request: &cproto.Command_QueryRequest{QueryRequest: &cmdproto.QueryRequest{}}}},
+		{"REQUEST", &cproto.Command{Type: cproto.Command_COMMAND_TYPE_REQUEST, Request: &cproto.Command_ExecuteQueryRequest{ExecuteQueryRequest: &cmdproto.ExecuteQueryRequest{}}}},
+		{"BACKUP", &cproto.Command{Type: cproto.Command_COMMAND_TYPE_BACKUP, Request: &cproto.Command_BackupRequest{BackupRequest: &cmdproto.BackupRequest{}}}},
+		{"BACKUP_STREAM", &cproto.Command{Type: cproto.Command_COMMAND_TYPE_BACKUP_STREAM, Request: &cproto.Command_BackupRequest{BackupRequest: &cmdproto.BackupRequest{}}}},
+		{"LOAD_CHUNK", &cproto.Command{Type: cproto.Command_COMMAND_TYPE_LOAD_CHUNK, Request: &cproto.Command_LoadChunkRequest{LoadChunkRequest: &cmdproto.LoadChunkRequest{}}}},
+		{"REMOVE_NODE", &cproto.Command{Type: cproto.Command_COMMAND_TYPE_REMOVE_NODE, Request: &cproto.Command_RemoveNodeRequest{RemoveNodeRequest: &cmdproto.RemoveNodeRequest{}}}},
+		{"NOTIFY", &cproto.Command{Type: cproto.Command_COMMAND_TYPE_NOTIFY, Request: &cproto.Command_NotifyRequest{NotifyRequest: &cmdproto.NotifyRequest{}}}},
+		{"JOIN", &cproto.Command{Type: cproto.Command_COMMAND_TYPE_JOIN, Request: &cproto.Command_JoinRequest{JoinRequest: &cmdproto.JoinRequest{}}}},
+		{"HIGHWATER_MARK_UPDATE", &cproto.Command{Type: cproto.Command_COMMAND_TYPE_HIGHWATER_MARK_UPDATE, Request: &cproto.Command_HighwaterMarkUpdateRequest{HighwaterMarkUpdateRequest: &cproto.HighwaterMarkUpdateRequest{}}}},
+		// payload of another command type than the one named
+		{"EXECUTE-with-query-payload", &cproto.Command{Type: cproto.Command_COMMAND_TYPE_EXECUTE, Request: &cproto.Command_QueryRequest{QueryRequest: &cmdproto.QueryRequest{Request: stmt("SELECT 1")}}}},
+		{"REQUEST-with-execute-payload", &cproto.Command{Type: cproto.Command_COMMAND_TYPE_REQUEST, Request: &cproto.Command_ExecuteRequest{ExecuteRequest: &cmdproto.ExecuteRequest{Request: stmt("SELECT 1")}}}},
+		{"QUERY-with-statement-without-sql", &cproto.Command{Type: cproto.Command_COMMAND_TYPE_QUERY, Request: &cproto.Command_QueryRequest{QueryRequest: &cmdproto.QueryRequest{Request: &cmdproto.Request{Statements: []*cmdproto.Statement{{}, nil}}}}}},
+		{"REQUEST-with-nil-statement", &cproto.Command{Type: cproto.Command_COMMAND_TYPE_REQUEST, Request: &cproto.Command_ExecuteQueryRequest{ExecuteQueryRequest: &cmdproto.ExecuteQueryRequest{Request: &cmdproto.Request{Statements: []*cmdproto.Statement{{Sql: "SELECT 1", Parameters: []*cmdproto.Parameter{{}, nil}}}}}}}},
+	}
+	for _, pl := range hollow {
+		for _, cr := range []struct {
+			name string
+			c    *cproto.Credentials
+		}{{"admin credentials", admin}, {"no credentials", nil}} {
+			cmd := proto.Clone(pl.cmd).(*cproto.Command)
+			cmd.Credentials = cr.c
+			add("hollow-payload", fmt.Sprintf("hollow %s command, %s", pl.name, cr.name), 2, frame(cmd), 250, 1)
+		}
+	}
 	// length prefixes followed by few bytes
 	for _, sz := range []uint64{0, 1, 7, 1 << 20, 1 << 31, 1 << 33, 1 << 36, 1 << 40, 1 << 47, 1 << 63, ^uint64(0)} {
 		for _, tail := range []int{0, 1, 64} {
@@ -248,7 +283,7 @@ func send(addr string, s stream) (sent int64, note string) {
 }
 
 func run(c *vf.Ctx) {
-	c.Rule("stream = bytes written to the node's inter-node (mux) port after a mux header byte: every cluster command type with a missing payload x {no, right, wrong} credentials; every command type with a real, state-changing or data-reading payload x {no credentials, empty credentials, unknown user, wrong password} (must be refused without effect); 64-bit length prefixes 0..2^64-1 followed by 0/1/64 bytes; valid length + random protobuf bytes; random bytes on registered and unregistered mux headers; bit-flipped well-formed frames; truncated frame held open; 600 idle connections; 300 connections announcing 1 GiB each. One real rqlited process (credential store configured, ulimit -v 12 GiB) receives them one after the other; after each stream: process alive, /readyz, a write + read over HTTP, row count as expected, VmRSS and Go heap (HeapSys/HeapInuse from /debug/vars). non-trivial = stream of a class other than pure random bytes; distinct by stream bytes")
+	c.Rule("stream = bytes written to the node's inter-node (mux) port after a mux header byte: every cluster command type with a missing payload x {no, right, wrong} credentials; every payload-carrying command type with a hollow payload (the right message with no field set, a payload of another type, statements without SQL, nil parameters) x {authorized sender, anonymous}; every command type with a real, state-changing or data-reading payload x {no credentials, empty credentials, unknown user, wrong password} (must be refused without effect); 64-bit length prefixes 0..2^64-1 followed by 0/1/64 bytes; valid length + random protobuf bytes; random bytes on registered and unregistered mux headers; bit-flipped well-formed frames; truncated frame held open; 600 idle connections; 300 connections announcing 1 GiB each. One real rqlited process (credential store configured, ulimit -v 12 GiB) receives them one after the other; after each stream: process alive, /readyz, a write + read over HTTP, row count as expected, VmRSS and Go heap (HeapSys/HeapInuse from /debug/vars). non-trivial = stream of a class other than pure random bytes; distinct by stream bytes")
 	c.Assume("memory oracle: growth of HeapInuse or VmRSS across one stream must stay below bytes sent + 256 MiB (measured while the connections are still open for length-prefix streams)")
 	tmp := vf.TempDir("c35")
 	defer os.RemoveAll(tmp)
@@ -324,6 +359,8 @@ func run(c *vf.Ctx) {
 			keyBase = fmt.Sprintf("nil-payload:%s", cproto.Command_Type(t))
 		} else if s.Class == "length-prefix" {
 			keyBase = "length-prefix:unbounded-make"
+		} else if s.Class == "hollow-payload" {
+			keyBase = "hollow-payload:" + strings.Fields(strings.TrimPrefix(s.Desc, "hollow "))[0]
 		} else if s.Class == "wellformed-unauthorized" {
 			keyBase = "wellformed-unauthorized:" + strings.Fields(strings.TrimPrefix(s.Desc, "well-formed "))[0]
 		}
